@@ -245,7 +245,7 @@ def jacobi_h(N, a, b):
 
 def run_jacobi(case, seed, R):
     a, b, N = case['alpha'], case['beta'], case['N']
-    fam = f'jacobi[{jac_cls(a, b)}]'
+    fam = f'jacobi[{case.get("tag") or jac_cls(a, b)}]'
     fa, fb = F(a), F(b)
     sweep(R, fam, N, lambda n, x: pp.jacobi(n, a, b, x), _refs(lambda n, x: rp.jacobi(n, fa, fb, x), pts('I', seed)), (pts('I', seed),), N32['I'])
     x, w = sps.roots_jacobi(N + 1, a, b)
@@ -466,7 +466,7 @@ def run_q2d(case, seed, R):
     Rv, Rd = np.array(Rv), np.array(Rd)
     G = (Rd @ Rd.T + am * am * (Rv @ Rv.T)) / (2 * Nq)       # (1/pi) int_0^1 . (1-u^2)^(-1/2) du, Gauss-Chebyshev
     ij = np.add.outer(np.arange(N + 1), np.arange(N + 1)) + 1
-    tol = 1e-9 * ij
+    tol = (1e-9 if am <= 10 else 1e-8) * ij      # measured worst: 5.8e-12 ij (|m| <= 10), 5.2e-11 ij (|m| = 30)
     d = np.diag(G)
     R.expect_close(d, np.ones(N + 1), np.diag(tol), 'Q2d:gradient:norm', f'Q2d m={am} gradient norms under the Chebyshev weight')
     R.expect_close(G - np.diag(d), np.zeros_like(G), tol, 'Q2d:gradient:orthogonality', f'Q2d m={am} gradient inner products')
@@ -731,6 +731,86 @@ def run_seq(case, seed, R):
 
 
 # ---------------------------------------------------------------------------------------------
+# threshold orders (overflow points of factorial / gamma / fixed-width integers); NOT closed over the order dimension
+
+HI_ORDERS = [60, 100, 150, 170, 171, 172, 200, 256, 300]
+HI_PTS = [-1.0, 1.0, 0.0, 0.5, -0.75, 0.3125, -0.9375, 0.96875]        # few-bit dyadic: exact rationals stay small at n = 300
+HI_JAC = [[-0.5, -0.5], [0.5, 0.5], [-0.5, 0.5], [0.5, -0.5], [0, 4], [1, 2], [2.5, 7.25]]
+HI_M = [12, 16, 17, 18, 20, 25, 30]
+
+
+def _cheb_scale(kind, n, x):
+    """running max_k<=n |C_k(x)| of the Chebyshev family `kind` by its own three-term recurrence in float (a scale, not an oracle)."""
+    p0 = np.ones_like(x)
+    p1 = {1: x, 2: 2 * x, 3: 2 * x - 1, 4: 2 * x + 1}[kind]
+    run = np.maximum(np.abs(p0), np.abs(p1)) if n >= 1 else np.abs(p0)
+    for _ in range(2, n + 1):
+        p0, p1 = p1, 2 * x * p1 - p0
+        run = np.maximum(run, np.abs(p1))
+    return run
+
+
+def run_threshold(case, seed, R):
+    fam, n = case['family'], case['n']
+    x = np.array(HI_PTS)
+    fr = [rp.frac(v) for v in HI_PTS]
+    if fam == 'jacobi':
+        a, b = case['alpha'], case['beta']
+        f, args = pp.jacobi, (n, a, b)
+        vals = np.array([float(rp.jacobi_hyp(n, F(a), F(b), v)) for v in fr])
+        ks = np.arange(n + 1)[:, None]
+        cond = np.max(np.abs(sps.eval_jacobi(ks, a, b, x[None, :])), axis=0)
+    elif fam == 'legendre':
+        f, args = pp.legendre, (n,)
+        vals = np.array([float(rp.legendre(n, v)) for v in fr])
+        cond = np.ones_like(x)
+    else:
+        kind = int(fam[-1])
+        f, args = getattr(pp, fam), (n,)
+        vals = np.array([float(getattr(rp, fam)(n, v)) for v in fr])
+        cond = _cheb_scale(kind, n, x)
+        # the trigonometric definition as a second, independent judgement of the reference itself (harness self-check)
+        th = np.arccos(x[2:])
+        trig = {1: np.cos(n * th), 2: np.sin((n + 1) * th) / np.sin(th), 3: np.cos((n + .5) * th) / np.cos(th / 2),
+                4: np.sin((n + .5) * th) / np.sin(th / 2)}[kind]
+        if not np.all(np.abs(trig - vals[2:]) <= 1e-9 * cond[2:]):
+            raise AssertionError(f'reference self-check failed for {fam} n={n}')
+    cond = np.maximum(cond, np.abs(vals))
+    cls = 'n<171' if n < 171 else 'n>=171'
+    got = R.call(f, *args, x, sig=f'{fam}:high-order:{cls}:exception')
+    _close(R, got, vals, cond, n, EPS64, K_DEFAULT, f'{fam}:high-order:{cls}', f'{fam} order {n} {args[1:]} on a 1-D array')
+    for i, v in enumerate(HI_PTS):
+        got = R.call(f, *args, v, sig=f'{fam}:high-order:{cls}:scalar:exception')
+        _close(R, got, vals[i], cond[i], n, EPS64, K_DEFAULT, f'{fam}:high-order:{cls}:scalar', f'{fam} order {n} {args[1:]} at x={v}')
+    R.nontrivial()
+    R.outcome(fam)
+
+
+def run_q2d_high(case, seed, R):
+    """high azimuthal orders: the whole q2d treatment (pointwise vs exact Gram-Schmidt, structure, gradient Gram) plus Q2d_seq."""
+    run_q2d(case, seed, R)
+    am, N = case['am'], case['N']
+    P, Tt = pts('U', seed), PTS_T
+    fr = [rp.frac(v) for v in P]
+    cs, h = rp.q2d_table(am, N)
+    pre = np.array([float(x ** am) for x in fr])
+    nms = [(0, am), (1, -am), (2, am), (5, -am), (5, am)]
+    vals, conds = [], []
+    run = np.zeros(len(P))
+    qs = {}
+    for k in range(N + 1):
+        q = np.array([float(rp.horner(cs[k][:k + 1], x * x)) for x in fr]) / math.sqrt(h[k])
+        run = np.maximum(run, pre * np.maximum(1.0, np.abs(q)))
+        qs[k] = (pre * q, run.copy())
+    for n, m in nms:
+        trig = np.array([math.cos(m * t) if m >= 0 else math.sin(am * t) for t in Tt])
+        vals.append(qs[n][0] * trig)
+        conds.append(qs[n][1])
+    out = R.call(pp.Q2d_seq, nms, np.array(P), np.array(Tt), sig='Q2d_seq:high-m:exception')
+    _seq_compare(R, 'Q2d_seq', 'high-m', '1d', out, [n for n, _ in nms], vals, conds, K_DEFAULT, f'Q2d_seq({nms})')
+
+
+# ---------------------------------------------------------------------------------------------
 # history: cold == warm, bit for bit
 
 XH = np.array(_FIXED['I'][:8])
@@ -873,6 +953,14 @@ def plan(tier, seed):
     q2_cases = [{'am': am, 'N': N2} for am in range(M2 + 1)]
     xy_cases = [{'m': m, 'n': n} for m in range(7) for n in range(7)]
     hop_cases = [{'a': a, 'b': b, 'c': c} for a in range(-4, 5) for b in range(5) for c in range(5)]
+    nx = float(np.nextafter(0.5, 1))
+    near = [(0.1 + 0.2, -0.3), (1 - 0.9, -0.1), (-0.3, 0.7 - 0.4), (nx, -0.5), (0.5, float(np.nextafter(-0.5, 0))), (-0.5, nx), (0.25, -0.25 + 1e-15), (0.25, -0.25 - 1e-15),
+            (-0.25 + 1e-15, 0.25), (0.75, -0.75 + 1e-15), (-0.3, -0.7 + 1e-15), (-0.3, -0.7 - 1e-15), (-0.7 + 1e-15, -0.3),
+            (0.1 + 0.2 - 1, -0.3), (1e-9, 1e-12), (1e-12, -1e-9), (-1e-15, 2e-15)]
+    near_cases = [{'alpha': float(a), 'beta': float(b), 'N': 6, 'tag': 'a+b~-1' if a + b < -0.5 else 'a+b~0'} for a, b in near]
+    thr_cases = [{'family': f, 'n': n} for n in HI_ORDERS for f in ('legendre', 'cheby1', 'cheby2', 'cheby3', 'cheby4')] + \
+        [{'family': 'jacobi', 'alpha': a, 'beta': b, 'n': n} for n in HI_ORDERS for a, b in HI_JAC]
+    q2h_cases = [{'am': m, 'N': 5} for m in HI_M]
     seq_cases = []
     for fn, (_, _, _, bk) in SEQ1.items():
         for p in SEQ1_PARAMS.get(fn, [[]]):
@@ -923,6 +1011,18 @@ def plan(tier, seed):
                   'and separable axis vectors; oracle x^m y^n exact', reset=reset_poly_caches),
         ScopeUnit('hopkins', hop_cases, run_hopkins,
                   'every (a,b,c) in [-4..4] x [0..4]^2, all input forms; oracle cos(a t) | sin(|a| t) times r^b H^c exact', reset=reset_poly_caches),
+        ScopeUnit('jacobi_near_cancel', near_cases, run_jacobi,
+                  'value-specific parameter alphabet: (alpha,beta) whose sum is a rounding-sized non-zero number (0.1+0.2,-0.3), (1-0.9,-0.1), (-0.3,0.7-0.4), one-ulp '
+                  'neighbours of (0.5,-0.5), alpha+beta = +-1e-15, the same around alpha+beta = -1, and tiny parameters; orders 0..6, all input forms, against the exact-rational '
+                  'explicit sum at the exact binary value of the parameters; plus the Gauss-Jacobi Gram matrix', reset=reset_poly_caches, chunk=1),
+        ScopeUnit('threshold_orders', thr_cases, run_threshold,
+                  f'threshold alphabet of orders {HI_ORDERS} (gamma / factorial overflow at 171, typical large orders) for Legendre, Chebyshev T/U/V/W and Jacobi {HI_JAC} at '
+                  f'{len(HI_PTS)} few-bit dyadic points incl. both end points, as 1-D array and scalars; oracle: exact-rational explicit sums (Chebyshev additionally self-checked against the '
+                  'trigonometric definitions); scale = running max over k <= n of |p_k(x)|.  This unit is a threshold alphabet, NOT closed over the order dimension', reset=reset_poly_caches),
+        ScopeUnit('q2d_high_m', q2h_cases, run_q2d_high,
+                  f'threshold alphabet of azimuthal orders |m| in {HI_M} (int64 overflow of the m-dependent seeds at 17/18) x n in [0..5], both signs: Q2d pointwise against the exact '
+                  'rational (arbitrary-precision integer) Gram-Schmidt reference whose n=0 member is the closed form Q_0^m = 1/(2 sqrt(F_0^m)), radial structure, gradient Gram matrix, and Q2d_seq; '
+                  'not closed over m', reset=reset_poly_caches, chunk=1),
         ScopeUnit('seq_definition', seq_cases, run_seq,
                   f'every value-returning *_seq entry point (jacobi, legendre, cheby1-4, hermite_He/H, laguerre, dickson1/2, Qbfs, Qcon: shape parameters '
                   f'{SEQ1_PARAMS}; zernike_nm_seq norm True/False, Q2d_seq, xy_seq) against the exact-rational definitions (never against the scalar routine) for a '
